@@ -1,5 +1,5 @@
 /* C01: secp256k1_ecdsa_sign and secp256k1_ecdsa_sign_recoverable (API level), real sign_inner underneath
- * (retry loop closed by the loop contract of hooks/C01_sign_inner_loop.diff).  Every pointer argument NULL
+ * (retry loop closed by the loop contract of the unit table (engine/units/C01_more.py, no /repo edit)).  Every pointer argument NULL
  * or an object; context with or without a built generator table (static-context case).
  * Decided: unbuilt context / NULL argument => one illegal callback, ret 0, nothing written; failure =>
  * signature object all zero (recoverable: all 65 bytes); success => the object holds exactly the core
@@ -8,7 +8,6 @@
 #define LOG_NONCE_FN
 #define LOG_EC_COMMIT_SECKEY
 #include "assumed_C15.h"
-#define SECP256K1_VERIF_SIGN_LOOP_GHOST NONCE_FN_GHOST, SIG_SIGN_GHOST, EC_COMMIT_SECKEY_GHOST
 #include "src/secp256k1.c"
 #include "post.h"
 #include "C01/nonce_stub.c"   /* stub user nonce callback (not a unit) */
